@@ -22,12 +22,15 @@ open NumOps
 inductive PVal (α : Type) where
   | q (x : Quantity α)
   | b (x : Bool)
-deriving Repr, Inhabited
+  | list (vs : List (PVal α))
+deriving Inhabited
 
 /-- run-time failures: a quantity error of the VM, or an ill-typed operand (`stuck`: the VM would panic
 in `pop_quantity`/`pop_bool`; the type checker is there to exclude it) -/
 inductive PErr where
   | q (e : QErr)
+  /-- `head`/`tail` of an empty list (`RuntimeErrorKind::EmptyList`) -/
+  | emptyList
   | stuck
   | outOfFuel
 deriving Repr, DecidableEq
@@ -57,6 +60,13 @@ inductive PExpr (α : Type) where
   | call (f : Nat) (args : PExpr α)
   | noarg
   | arg (a rest : PExpr α)
+  /-- list literal `[a₁, …, aₙ]`: `elems` is a chain like the arguments of a call -/
+  | lst (elems : PExpr α)
+  /-- the foreign functions `head`, `tail`, `cons`, `len` of core::lists -/
+  | head (l : PExpr α)
+  | tail (l : PExpr α)
+  | cons (a l : PExpr α)
+  | len (l : PExpr α)
 deriving Repr
 
 /-- a user function: number of parameters, the right-hand sides of its `where` clauses (each may refer to the
@@ -69,6 +79,11 @@ deriving Repr
 
 section
 variable {α : Type} [NumOps α]
+
+/-- `n as f64` for a list length -/
+def natToNum : Nat → α
+  | 0 => zero
+  | n + 1 => add (natToNum n) one
 
 def liftQ (r : Except QErr (Quantity α)) : Except PErr (PVal α) :=
   match r with
@@ -85,16 +100,16 @@ def binQ (x y : Except PErr (PVal α)) (f : Quantity α → Quantity α → Exce
     Except PErr (PVal α) :=
   match x, y with
   | .ok (.q a), .ok (.q b) => f a b
-  | .ok (.q _), .ok (.b _) => .error .stuck
-  | .ok (.b _), .ok _ => .error .stuck
+  | .ok (.q _), .ok _ => .error .stuck
+  | .ok _, .ok _ => .error .stuck
   | .error e, _ => .error e
   | .ok _, .error e => .error e
 
 def binB (x y : Except PErr (PVal α)) (f : Bool → Bool → Bool) : Except PErr (PVal α) :=
   match x, y with
   | .ok (.b a), .ok (.b b) => .ok (.b (f a b))
-  | .ok (.b _), .ok (.q _) => .error .stuck
-  | .ok (.q _), .ok _ => .error .stuck
+  | .ok (.b _), .ok _ => .error .stuck
+  | .ok _, .ok _ => .error .stuck
   | .error e, _ => .error e
   | .ok _, .error e => .error e
 
@@ -130,7 +145,7 @@ def evalP (tbl : Table α) (fns : List (FnDef α)) (glob : List (PVal α)) :
     | .neg a =>
       match evalP tbl fns glob fuel loc a with
       | .ok (.q x) => .ok (.q x.neg)
-      | .ok (.b _) => .error .stuck
+      | .ok _ => .error .stuck
       | .error e => .error e
     | .add a b => binQ (evalP tbl fns glob fuel loc a) (evalP tbl fns glob fuel loc b) (fun x y => liftQ (qadd tbl x y))
     | .sub a b => binQ (evalP tbl fns glob fuel loc a) (evalP tbl fns glob fuel loc b) (fun x y => liftQ (qsub tbl x y))
@@ -139,7 +154,7 @@ def evalP (tbl : Table α) (fns : List (FnDef α)) (glob : List (PVal α)) :
     | .pow a r =>
       match evalP tbl fns glob fuel loc a with
       | .ok (.q x) => liftQ (checkedPower x r)
-      | .ok (.b _) => .error .stuck
+      | .ok _ => .error .stuck
       | .error e => .error e
     | .conv a t => binQ (evalP tbl fns glob fuel loc a) (evalP tbl fns glob fuel loc t) (fun x y => liftQ (vmConvertTo tbl x y))
     | .cmp op a b => binQ (evalP tbl fns glob fuel loc a) (evalP tbl fns glob fuel loc b) (fun x y => liftB (vmCompare tbl op x y))
@@ -150,14 +165,14 @@ def evalP (tbl : Table α) (fns : List (FnDef α)) (glob : List (PVal α)) :
     | .not a =>
       match evalP tbl fns glob fuel loc a with
       | .ok (.b x) => .ok (.b (!x))
-      | .ok (.q _) => .error .stuck
+      | .ok _ => .error .stuck
       | .error e => .error e
     | .blit v => .ok (.b v)
     | .ite c t e =>
       match evalP tbl fns glob fuel loc c with
       | .ok (.b true) => evalP tbl fns glob fuel loc t
       | .ok (.b false) => evalP tbl fns glob fuel loc e
-      | .ok (.q _) => .error .stuck
+      | .ok _ => .error .stuck
       | .error err => .error err
     | .call f args =>
       match evalArgs tbl fns glob fuel loc args with
@@ -174,6 +189,36 @@ def evalP (tbl : Table α) (fns : List (FnDef α)) (glob : List (PVal α)) :
           else .error .stuck
     | .noarg => .error .stuck
     | .arg _ _ => .error .stuck
+    | .lst elems =>
+      match evalArgs tbl fns glob fuel loc elems with
+      | .ok vs => .ok (.list vs)
+      | .error err => .error err
+    | .head l =>
+      match evalP tbl fns glob fuel loc l with
+      | .ok (.list (v :: _)) => .ok v
+      | .ok (.list []) => .error .emptyList
+      | .ok _ => .error .stuck
+      | .error err => .error err
+    | .tail l =>
+      match evalP tbl fns glob fuel loc l with
+      | .ok (.list (_ :: vs)) => .ok (.list vs)
+      | .ok (.list []) => .error .emptyList
+      | .ok _ => .error .stuck
+      | .error err => .error err
+    | .cons a l =>
+      -- arguments left to right
+      match evalP tbl fns glob fuel loc a with
+      | .error err => .error err
+      | .ok v =>
+        match evalP tbl fns glob fuel loc l with
+        | .ok (.list vs) => .ok (.list (v :: vs))
+        | .ok _ => .error .stuck
+        | .error err => .error err
+    | .len l =>
+      match evalP tbl fns glob fuel loc l with
+      | .ok (.list vs) => .ok (.q ⟨natToNum vs.length, [], true⟩)
+      | .ok _ => .error .stuck
+      | .error err => .error err
 
 /-- the arguments of a call, left to right -/
 def evalArgs (tbl : Table α) (fns : List (FnDef α)) (glob : List (PVal α)) :
